@@ -206,7 +206,7 @@ def oracle_table(case):
         os.makedirs(WORK_DIR, exist_ok=True)
         pd_ = os.path.join(WORK_DIR, f"c15_{os.getpid()}_dialect.cif")
         with open(pd_, "w") as f:
-            f.write(atomtab.emit_cif(atoms, case.get("null", "?"), dialect={"drop": sorted(drop), "order": dia.get("order"),
+            f.write(atomtab.emit_cif(atoms, case.get("null", "?"), dialect={"drop": sorted(drop), "order": dia.get("order"), "numbers": dia.get("numbers"),
                                                                             "label_seq": dia.get("label_seq") if dia.get("identity") != "label" else None}))
         paths["cif-dialect"] = pd_
         wants["cif-dialect"] = wd
@@ -358,7 +358,8 @@ def st_cases():
                              max_size=5, unique=True),
             "order": st.one_of(st.none(), st.integers(0, 10 ** 6)),
             "identity": st.sampled_from(["both", "both", "auth", "label"]),
-            "label_seq": st.sampled_from([None, None, "author"])})))
+            "label_seq": st.sampled_from([None, None, "author"]),
+            "numbers": st.sampled_from([None, None, 0, 2, 4])})))
         if draw(st.integers(0, 3)) == 0:
             # a flat model (2D layout, idealised template): every atom in one axis-aligned plane, so that the four
             # atoms of every torsion are EXACTLY coplanar and chi is exactly 0 or 180 degrees
